@@ -17,6 +17,16 @@ type Field struct {
 	VLen  int    `json:"vlen,omitempty"`
 	VSeed uint32 `json:"vseed,omitempty"`
 	Sens  bool   `json:"sens,omitempty"`
+	// How the SENDING endpoint represents the field (RFC 7541 6.1-6.2).  Raw = false: x/net's
+	// hpack.Encoder decides (indexed, literal with incremental indexing, literal without indexing for a
+	// field larger than the table, literal never indexed for Sens; Huffman where shorter; name indexed
+	// where the tables have it).  Raw = true: the rig's own writer (hpack_raw.go) emits a literal that
+	// leaves the dynamic table alone - never indexed (6.2.3) for Sens, without indexing (6.2.2)
+	// otherwise - with the name as a static-table index or (NameLit) spelled out, and the strings
+	// Huffman-coded where shorter (Huff 0), always (1) or never (2).  The header list is the same.
+	Raw     bool `json:"raw,omitempty"`
+	Huff    int  `json:"huff,omitempty"`
+	NameLit bool `json:"name_lit,omitempty"`
 }
 
 func (f Field) Value() string {
@@ -93,6 +103,9 @@ type Op struct {
 	FragLen  int  `json:"r_frag,omitempty"`
 	ReencLen int  `json:"r_reenc,omitempty"`
 	ListID   int  `json:"r_list,omitempty"`
+	// RawSent: fields of the block written by the rig's own writer (a field drawn Raw goes through the
+	// endpoint's encoder when that has a table size update to signal first)
+	RawSent int `json:"r_raw,omitempty"`
 	// SizeUpd: the dynamic table size updates the sender's completed block begins with; DecErr: what a
 	// decoder kept the way the unchanged relay keeps its own (table size = every HEADER_TABLE_SIZE
 	// value as soon as it is relayed, size updates of any value accepted) says of the completed block,
@@ -137,6 +150,12 @@ type Params struct {
 	// Conc > 0: the concurrent family - Conc bursts in which a header block of many CONTINUATION frames
 	// races with every other writer of the same destination (gen_conc.go)
 	Conc int `json:"conc,omitempty"`
+	// DebugLogs, Procs: the options of h2.Config that must not change a relayed octet.  DebugLogs =
+	// Config.EnableDebugLogs.  Procs = Config.StreamProcessorFactories: 0 none, 1 one factory that
+	// returns (nil, nil) (bypassed by Proxy), 2 one factory of pass-through processors (every call handed
+	// to the sink of its direction), 3 a pass-through factory chained with a bypassed one
+	DebugLogs bool `json:"debug_logs,omitempty"`
+	Procs     int  `json:"procs,omitempty"`
 	// E2E: the relay is reached the way a client reaches it - CONNECT to a martian.Proxy that
 	// intercepts TLS and negotiates h2 - and the connection is kept for HoldMs (rig_e2e.go)
 	E2E *E2E `json:"e2e,omitempty"`
@@ -310,8 +329,19 @@ type Result struct {
 	Final     bool           `json:"final"`
 	Crashed   string         `json:"crashed,omitempty"` // child process died while running this case (stderr tail)
 	Stats     map[string]int `json:"stats,omitempty"`
+	// HdrObs: the first few small header lists as sent and as decoded by the receiving endpoint
+	// (compared with Model/H2Headers.lean `relayList`)
+	HdrObs []HdrObs `json:"hdr_obs,omitempty"`
 	// WireBad: RFC 7540 6.10 violated in the order in which frames ARRIVED at a raw endpoint (judged
 	// by its read loop, frame by frame); Arrival: that order, per endpoint (concurrent / end-to-end cases)
 	WireBad []string            `json:"wire_bad,omitempty"`
 	Arrival map[string][]string `json:"arrival,omitempty"`
+}
+
+// HdrObs is one header list at both ends of the relay (fields as name:value:sensitive, hex).
+type HdrObs struct {
+	Side string `json:"side"` // receiving endpoint
+	Sid  uint32 `json:"sid"`
+	Sent string `json:"sent"`
+	Got  string `json:"got"`
 }
